@@ -63,7 +63,7 @@ def new_listing():
 # alphabet = {add, add with no_override, remove} x priorities; every sequence of every length up to the bound is run on one of the five vectors.
 EXHAUSTIVE = {
     "quick": [(3, [-2, -1, 0, 1, 2, 3]), (4, [0, 1, 2]), (5, [0, 1])],
-    "thorough": [(4, [-2, -1, 0, 1, 2, 3]), (5, [0, 1, 2]), (7, [0, 1])],
+    "thorough": [(4, [-2, -1, 0, 1, 2, 3]), (6, [0, 1, 2]), (7, [0, 1])],
 }
 SAMPLED_8 = {"quick": 0, "thorough": 0.1}     # share of the length-8 sequences over two priorities that is run
 
@@ -778,7 +778,7 @@ def signature(c, m):
 
 
 def extra_coverage(cases, impl, model, spec):
-    tier = "thorough" if any(c.meta.get("kind", "").startswith("exhaustive<=7") for c in cases) else "quick"
+    tier = "thorough" if any(c.meta.get("kind", "").startswith("exhaustive<=7") or c.meta.get("kind", "").startswith("exhaustive<=6") for c in cases) else "quick"
     hits = sum(1 for c in cases if c.comp == "order.run" and c.id in impl for _ in re.finditer(r"\(L \(L \(N 0\) \(L \(N 20[06]\)", impl[c.id]))
     nreq = sum(len(c.x[1][1][1]) for c in cases if c.comp == "order.run")
     cached = sum(1 for c in cases if c.comp == "order.run" and c.x[1][2][1][0][1] == 1)
@@ -971,7 +971,7 @@ LEVEL_TEXT = ("Machine-checked Coq theorems (no axioms) over transcriptions of t
               "(reference map / token-level reading of the line / deque) and checked by model-free oracles.")
 LEVEL_NOTE = ("Trusted: Coq kernel, extraction (ExtrOcamlBasic) reduced by an in-kernel recheck sample, the hand transcriptions as validated by the "
               "differential run, the declarative specification as a reading of the property. Bounded-exhaustive part of the quantifier as run: quick "
-              "every operation sequence up to length 3 over 6 priorities, 4 over 3, 5 over 2 (+12000 sampled up to 8); thorough up to 4 over 6, 5 over 3, "
+              "every operation sequence up to length 3 over 6 priorities, 4 over 3, 5 over 2 (+12000 sampled up to 8); thorough up to 4 over 6, 6 over 3, "
               "7 over 2 and 10 % of length 8 over 2 (the theorem covers all lengths and priorities). Not covered: HTTP/2 and push, streaming (future) "
               "responses, vary variants and 304 revalidation on a cache hit, async interleavings of two requests (extensions are immutable during "
               "serving), Path::extension / sanitize outside the fixture's URI domain. The repaired defects are kept as _v0 refutation witnesses.")
